@@ -130,6 +130,7 @@ R02.4 (Go) interface discovery does not descend into function bodies (FuncDecl a
 	}
 	r := loadRepo(c, packages.LoadSyntax, "", "./internal", "./template")
 	goC02(c, r)
+	ruleTypeParams(c, r, "R02.2") // generic interfaces: the mock declares exactly the interface's type parameters
 	accessorTableGuard(c, "R02.6")
 	// R02.7: the mock's signature is the interface's only if every package a parameter or result type mentions
 	// is registered under its qualifier: the exhaustive import walk (C01 R01.1) is a necessary condition here
